@@ -179,6 +179,41 @@ def gen_bijection(rng):
     return 'bijection', Y, X
 
 
+def evaluate_hugecodes(ctx: Ctx, cases):
+    """raw identifiers used directly as codes (beyond 2^24, below 2^26): through numba_mi the pair must score like the same pair
+    under dense codes (C02's invariance), with the correction on for MI-numba-randomized and off for the other names"""
+    import numpy as np
+    from outrank.algorithms import importance_estimator as ie
+    for fam, Y, X, off in cases:
+        ctx.evaluations += 1
+        ctx.count('numba_mi-codes-beyond-2^24')
+        dy, dx = {}, {}
+        Yd, Xd = [dy.setdefault(v, len(dy)) for v in Y], [dx.setdefault(v, len(dx)) for v in X]
+        if Yd == Xd and Y != X:
+            Xd = [v + len(dy) for v in Xd]
+        side = ctx.rng.choice(['feature', 'target', 'both'])
+        Yh = [v + off for v in Y] if side in ('feature', 'both') else Y
+        Xh = [v + off + 7 for v in X] if side in ('target', 'both') else X
+        if Y == X:                                   # a self pair stays a self pair: the same shift on both sides
+            Yh = Xh = [v + off for v in Y]
+        elif Yh == Xh:
+            Xh = [v + 1 for v in Xh]
+        for name in NAMES:
+            want = float(ie.numba_mi(np.asarray(Yd, dtype=np.int32).reshape(-1, 1), np.asarray(Xd, dtype=np.int32), name, 1.0))
+            got = float(ie.numba_mi(np.asarray(Yh, dtype=np.int64).reshape(-1, 1), np.asarray(Xh, dtype=np.int64), name, 1.0))
+            if abs(got - want) > 2 * tol(len(X)):
+                ctx.oracle_fail('hugecodes:' + name, f'family={fam} n={len(X)}: numba_mi(heuristic={name!r}) on int64 vectors whose codes lie beyond 2^24 '
+                                f'({side} side shifted by {off}; Y={Yh[:6]}… X={Xh[:6]}…) = {got!r}, the same pair under dense codes scores {want!r}',
+                                {'hugecodes': [fam, Y, X, off]})
+                break
+
+
+def gen_hugecodes(rng):
+    fam, Y, X = gen_pair(rng, False, maxn=300)
+    Y, X = [y % 50 for y in Y], [x % 50 for x in X]
+    return fam, Y, X, rng.choice([2 ** 24, 2 ** 24 + 12345, 20_000_000, 2 ** 25])
+
+
 def corpus():
     return [('corpus', [0, 1, 0, 2], [1, 1, 0, 0]), ('corpus', [0, 1], [1, 0]), ('corpus', [4, 4, 4, 4], [0, 1, 0, 1]),
             ('corpus', [0, 1, 2, 3, 4, 5], [0, 0, 1, 1, 2, 2]), ('corpus', [2, 0, 2], [2, 0, 2])]
@@ -191,6 +226,7 @@ PIPE_CORPUS = [{'cols': [['label', [0, 0, 0, 1]], ['f', [0, 0, 1, 0]]], 'label':
 def run(ctx: Ctx):
     n = 5000 if ctx.thorough() else 700
     evaluate(ctx, corpus() + [gen_pair(ctx.rng, ctx.thorough(), maxn=3000) for _ in range(n)] + [gen_bijection(ctx.rng) for _ in range(n // 7)])
+    evaluate_hugecodes(ctx, [gen_hugecodes(ctx.rng) for _ in range(20 if ctx.thorough() else 4)])
     evaluate_pipeline(ctx, PIPE_CORPUS + [gen_pipeline_case(ctx.rng) for _ in range(1500 if ctx.thorough() else 150)])
     seeds = range(ctx.seed * 100000, ctx.seed * 100000 + (400 if ctx.thorough() else 12))
     for nn in ((4000, 16000) if ctx.thorough() else (4000,)):
@@ -208,7 +244,9 @@ def search(ctx: Ctx):
 
 def replay(ctx: Ctx, payload):
     c = payload['case']
-    if isinstance(c, dict) and 'cols' in c:
+    if isinstance(c, dict) and 'hugecodes' in c:
+        evaluate_hugecodes(ctx, [tuple(c['hugecodes'])])
+    elif isinstance(c, dict) and 'cols' in c:
         evaluate_pipeline(ctx, [c])
     elif isinstance(c, dict) and 'Y' in c:
         evaluate(ctx, [(c.get('family', 'replay'), c['Y'], c['X'])])
